@@ -40,6 +40,21 @@ theorem getLabel_spec (c : CDB) (x : Nat) : Ext c (c.getLabel x).1 ∧ lab (c.ge
     unfold lab
     simp
 
+theorem getLabel_nodup (c : CDB) (x : Nat) (h : c.classes.Nodup) : (c.getLabel x).1.classes.Nodup := by
+  unfold CDB.getLabel CDB.label?
+  split
+  · exact h
+  · rename_i hn
+    simp only
+    have hx : x ∉ c.classes := by
+      intro hm
+      have := List.findIdx?_eq_none_iff.1 hn x hm
+      simp at this
+    exact List.nodup_append.2 ⟨h, (by simp), by
+      intro a ha b hb e
+      simp only [List.mem_singleton] at hb
+      rw [e, hb] at ha; exact hx ha⟩
+
 theorem isEmpty_classes (u : Universe) (c : CDB) (l : Nat) : (c.isEmpty u l).1.classes = c.classes := by
   unfold CDB.isEmpty
   split
@@ -83,6 +98,7 @@ theorem Genuine.ext {u : Universe} {c c' : CDB} {e : Event} (h : Genuine u c e) 
 structure EI (u : Universe) (s : E2.St) : Prop where
   gen : ∀ e, e ∈ s.log → Genuine u s.cdb e
   ql : QL (E2.packOf u) s.q (fun l => l < s.cdb.classes.length)
+  nd : s.cdb.classes.Nodup
 
 /-- the rule `r` (of strategy `σ` applied to class `x`) labelled `start -> ends` in the class database of `s` -/
 structure ArgsOK (u : Universe) (c : CDB) (start : Nat) (ends : List Nat) (r : RuleOut) : Prop where
@@ -94,7 +110,7 @@ theorem ArgsOK.ext {u : Universe} {c c' : CDB} {start : Nat} {ends : List Nat} {
     (he : Ext c c') : ArgsOK u c' start ends r := ⟨h.prov, h.st.ext he, Labs.ext he h.en⟩
 
 theorem EI.ext_q {u : Universe} {s : E2.St} (h : EI u s) (q : Q) (hq : QL (E2.packOf u) q (fun l => l < s.cdb.classes.length)) :
-    EI u { s with q := q } := ⟨h.gen, hq⟩
+    EI u { s with q := q } := ⟨h.gen, hq, h.nd⟩
 
 theorem foldl_inv {α β : Type} (f : β → α → β) (I : β → Prop) (l : List α) (b : β) (hb : I b)
     (hf : ∀ b a, a ∈ l → I b → I (f b a)) : I (l.foldl f b) := by
@@ -140,7 +156,7 @@ theorem Good.trans {u : Universe} {s0 s1 s2 : E2.St} (h1 : Good u s0 s1) (h2 : G
 theorem Good.of {u : Universe} {s0 s s' : E2.St} (h : Good u s0 s) (hlog : ∀ e, e ∈ s'.log → e ∈ s.log)
     (hc : s'.cdb.classes = s.cdb.classes) (hq : QL (E2.packOf u) s'.q (fun l => l < s.cdb.classes.length)) : Good u s0 s' := by
   have he : Ext s.cdb s'.cdb := ⟨[], by simp [hc]⟩
-  refine ⟨⟨fun e he' => (h.1.gen e (hlog e he')).ext he, ?_⟩, h.2.trans he⟩
+  refine ⟨⟨fun e he' => (h.1.gen e (hlog e he')).ext he, ?_, by rw [hc]; exact h.1.nd⟩, h.2.trans he⟩
   rw [hc]; exact hq
 
 theorem Good.congr {u : Universe} {s0 s s' : E2.St} (h : Good u s0 s) (hlog : s'.log = s.log) (hc : s'.cdb = s.cdb)
@@ -163,7 +179,7 @@ theorem Good.dbAdd {u : Universe} {s0 s : E2.St} (h : Good u s0 s) {start : Nat}
     (ha : ArgsOK u s.cdb start ends r) : Good u s0 (E2.dbAdd u s start ends r) := by
   obtain ⟨h1, h2, h3⟩ := dbAdd_frame u s start ends r _ _ h.1.ql
   have he : Ext s.cdb (E2.dbAdd u s start ends r).cdb := ⟨[], by simp [h2]⟩
-  refine ⟨⟨?_, by rw [h2]; exact h3⟩, h.2.trans he⟩
+  refine ⟨⟨?_, by rw [h2]; exact h3, by rw [h2]; exact h.1.nd⟩, h.2.trans he⟩
   intro e hm
   rw [h1] at hm
   rcases List.mem_append.1 hm with e1 | e1
@@ -187,30 +203,41 @@ theorem labelFold (cs : List Nat) : ∀ (c0 : CDB) (ls xs : List Nat), Labs c0 l
     refine ⟨e1.trans a, ?_⟩
     simpa using b
 
+theorem labelFold_nodup (cs : List Nat) : ∀ (c0 : CDB) (ls : List Nat), c0.classes.Nodup →
+    (cs.foldl (fun (acc : CDB × List Nat) c => ((acc.1.getLabel c).1, acc.2 ++ [(acc.1.getLabel c).2])) (c0, ls)).1.classes.Nodup := by
+  induction cs with
+  | nil => intro c0 ls h; exact h
+  | cons c cs ih =>
+    intro c0 ls h
+    rw [List.foldl_cons]
+    exact ih _ _ (getLabel_nodup c0 c h)
+
 theorem labelRule_spec (s : E2.St) (x lbl : Nat) (r : RuleOut) (s' : E2.St) (start : Nat) (ends : List Nat)
     (h : E2.labelRule s x lbl r = some (s', start, ends)) (hx : lab s.cdb lbl x) :
-    Ext s.cdb s'.cdb ∧ lab s'.cdb start r.parent ∧ Labs s'.cdb ends r.children ∧ s'.log = s.log ∧ s'.q = s.q := by
+    Ext s.cdb s'.cdb ∧ lab s'.cdb start r.parent ∧ Labs s'.cdb ends r.children ∧ s'.log = s.log ∧ s'.q = s.q ∧
+    (s.cdb.classes.Nodup → s'.cdb.classes.Nodup) := by
   unfold E2.labelRule at h
   split at h
   · cases h
   · simp only [Option.some.injEq, Prod.mk.injEq] at h
     obtain ⟨a, b⟩ := labelFold r.children s.cdb [] [] .nil
+    have nd := labelFold_nodup r.children s.cdb []
     simp only [List.nil_append] at b
-    generalize List.foldl _ (s.cdb, []) r.children = res at a b h
+    generalize List.foldl _ (s.cdb, []) r.children = res at a b h nd
     obtain ⟨c1, es⟩ := res
-    simp only at a b h
+    simp only at a b h nd
     by_cases hp : (r.parent == x) = true
     · simp only [hp, ↓reduceIte] at h
       obtain ⟨h1, h2, h3⟩ := h
       subst h1; subst h2; subst h3
       have : r.parent = x := by simpa using hp
-      refine ⟨a, ?_, b, rfl, rfl⟩
+      refine ⟨a, ?_, b, rfl, rfl, nd⟩
       rw [this]; exact hx.ext a
     · simp only [hp] at h
       obtain ⟨h1, h2, h3⟩ := h
       subst h1; subst h2; subst h3
       obtain ⟨e1, l1⟩ := getLabel_spec c1 r.parent
-      exact ⟨a.trans e1, l1, Labs.ext e1 b, rfl, rfl⟩
+      exact ⟨a.trans e1, l1, Labs.ext e1 b, rfl, rfl, fun h0 => getLabel_nodup c1 r.parent (nd h0)⟩
 
 theorem Labs.zip_mem {c : CDB} : ∀ {ls xs : List Nat}, Labs c ls xs → ∀ p, p ∈ xs.zip ls → lab c p.2 p.1
   | _, _, .nil, p, hp => by simp at hp
@@ -233,8 +260,8 @@ theorem mem_all_inf {u : Universe} {σ : Nat} (h : σ ∈ u.inferral) : σ ∈ a
   unfold allStrats; simp [h]
 
 theorem Good.grow {u : Universe} {s0 s s' : E2.St} (h : Good u s0 s) (hlog : s'.log = s.log) (he : Ext s.cdb s'.cdb)
-    (hq : s'.q = s.q) : Good u s0 s' := by
-  refine ⟨⟨?_, ?_⟩, h.2.trans he⟩
+    (hq : s'.q = s.q) (hnd : s'.cdb.classes.Nodup) : Good u s0 s' := by
+  refine ⟨⟨?_, ?_, hnd⟩, h.2.trans he⟩
   · intro e hm; rw [hlog] at hm; exact (h.1.gen e hm).ext he
   · rw [hq]; exact h.1.ql.mono (fun l hl => Nat.lt_of_lt_of_le hl he.len)
 
@@ -255,8 +282,8 @@ theorem applyFold_good {u : Universe} (fuel : Nat)
   split
   · exact ⟨hb, hlb⟩
   · rename_i s1 start ends hlr
-    obtain ⟨e1, l1, l2, l3, l4⟩ := labelRule_spec b x l r s1 start ends hlr hlb
-    have hb1 : Good u s0 s1 := hb.grow l3 e1 l4
+    obtain ⟨e1, l1, l2, l3, l4, l5⟩ := labelRule_spec b x l r s1 start ends hlr hlb
+    have hb1 : Good u s0 s1 := hb.grow l3 e1 l4 (l5 hb.1.nd)
     have hg := hadd s1 start ends r hb1.1 ⟨⟨σ, x, hσ, hr⟩, l1, l2⟩
     exact ⟨hb1.trans hg, hlb.ext (e1.trans hg.2)⟩
 
@@ -340,8 +367,8 @@ theorem symStep_good {u : Universe} (hw : WFU u) (b : Bool) (σ x l : Nat) (hσ 
   split
   · exact ⟨h, hl⟩
   · rename_i s1 start ends hlr
-    obtain ⟨e1, l1, l2, l3, l4⟩ := labelRule_spec acc.1 x l r s1 start ends hlr hl
-    have h1 : Good u s0 s1 := h.grow l3 e1 l4
+    obtain ⟨e1, l1, l2, l3, l4, l5⟩ := labelRule_spec acc.1 x l r s1 start ends hlr hl
+    have h1 : Good u s0 s1 := h.grow l3 e1 l4 (l5 h.1.nd)
     have h2 := h1.setEmpty ends.head! b
     have hs := Labs.single l2 (hw.sym σ hσ x r hr)
     have he2 : Ext s1.cdb ({ s1 with cdb := s1.cdb.setEmpty ends.head! b } : E2.St).cdb := ⟨[], by simp [CDB.setEmpty]⟩
@@ -479,8 +506,8 @@ theorem infExpand_good {u : Universe} (hw : WFU u) : ∀ (fuel : Nat) (s : E2.St
         · exact g0
         · rename_i i σ r s1 start ends hfi
           obtain ⟨m1, m2, m3⟩ := firstInf_spec u sa x l skip strats 0 i σ r s1 start ends hfi
-          obtain ⟨e1, l1, l2, l3, l4⟩ := labelRule_spec sa x l r s1 start ends m3 hla
-          have h1 : Good u s s1 := g0.grow l3 e1 l4
+          obtain ⟨e1, l1, l2, l3, l4, l5⟩ := labelRule_spec sa x l r s1 start ends m3 hla
+          have h1 : Good u s s1 := g0.grow l3 e1 l4 (l5 g0.1.nd)
           have hadd := (engine_mutual hw fuel).1 s1 start ends r h1.1 ⟨⟨σ, x, mem_all_inf (hst σ m1), m2⟩, l1, l2⟩
           have h2 := h1.trans hadd
           have h3 := h2.withQ _ (h2.1.ql.setNotInferrable start)
@@ -597,7 +624,7 @@ theorem initEngine_good {u : Universe} (hw : WFU u) (fuel c : Nat) : EI u (E2.in
       EI u (if !u.sym.isEmpty then E2.symExpand u fuel (E2.tryVerify u fuel s0 c 0) c 0 else E2.tryVerify u fuel s0 c 0) := by
     intro s0 e1 e2 e3
     have h0 : EI u s0 := by
-      refine ⟨fun e he => (by rw [e1] at he; cases he), ?_⟩
+      refine ⟨fun e he => (by rw [e1] at he; cases he), ?_, by rw [e2]; simp⟩
       rw [e2, e3]
       exact (QL.init _ _).add 0 (by simp)
     have hl : lab s0.cdb 0 c := by rw [e2]; simp [lab]
@@ -640,3 +667,23 @@ theorem exampleU_wf : WFU exampleU := ⟨fun σ h => (by cases h), fun σ h => (
 
 example : ((E2.exec exampleU 20 false [.expand, .expand, .search] (E2.initEngine exampleU 20 0)).log.map (fun e => (e.start, e.ends))) =
     [(1, []), (2, []), (0, [1, 2])] := by decide +kernel
+
+/-- equal classes share their label and unequal classes never do, in every reachable state of the engine model -/
+theorem engine_labels_bijective {u : Universe} (hw : WFU u) (fuel c : Nat) (iter : Bool) (ops : List E2.Op) :
+    let s := E2.exec u fuel iter ops (E2.initEngine u fuel c)
+    (∀ l l' x, lab s.cdb l x → lab s.cdb l' x → l = l') ∧ (∀ l x x', lab s.cdb l x → lab s.cdb l x' → x = x') := by
+  intro s
+  have h := (engine_events_genuine hw fuel c iter ops).nd
+  refine ⟨?_, ?_⟩
+  · intro l l' x h1 h2
+    have a := h1.lt; have b := h2.lt
+    unfold lab at h1 h2
+    rw [List.getElem?_eq_getElem a] at h1
+    rw [List.getElem?_eq_getElem b] at h2
+    have e : s.cdb.classes[l] = s.cdb.classes[l'] := by
+      injection h1 with h1; injection h2 with h2; rw [h1, h2]
+    exact (List.getElem_inj h).1 e
+  · intro l x x' h1 h2
+    unfold lab at h1 h2
+    rw [h1] at h2; injection h2
+#print axioms engine_labels_bijective
